@@ -38,6 +38,62 @@ func genDiffCase(r *Rng, size int) *diffCase {
 	return c
 }
 
+var interleaveCfg, _ = forkConfig("Merge") // London rules + terminal total difficulty: whether opcode 0x44 is DIFFICULTY or PREVRANDAO depends on the block context
+
+// detInterleaved runs one subject execution several times, with unrelated executions in between that share the subject's chain
+// configuration value, block number and time and differ in another field of the block context (PREVRANDAO set or not, coinbase,
+// base fee, gas limit); every subject run must return what the first one returned.
+func detInterleaved(r *Rng) string {
+	code := []byte{0x44, opPUSH1, 0, opMSTORE, 0x41, opPUSH1, 32, opMSTORE, 0x48, opPUSH1, 64, opMSTORE, 0x45, opPUSH1, 96, opMSTORE, opPUSH1, 128, opPUSH1, 0, opRETURN}
+	run := func(random *common.Hash, number int64, coinbase byte, baseFee, gasLimit int64) (out string) {
+		defer func() {
+			if x := recover(); x != nil {
+				out = "panic:" + strings.ReplaceAll(fmt.Sprint(x), " ", "_")
+			}
+		}()
+		sdb := newStateDB()
+		bctx := vm.BlockContext{
+			CanTransfer: canTransfer, Transfer: vm.TransferFunc(doTransfer),
+			GetHash:  func(n uint64) common.Hash { return common.Hash{} },
+			Coinbase: common.BytesToAddress([]byte{coinbase}), GasLimit: uint64(gasLimit), BlockNumber: big.NewInt(number), Time: 1,
+			Difficulty: big.NewInt(0x20000), BaseFee: big.NewInt(baseFee), Random: random,
+		}
+		e := vm.NewEVM(bctx, vm.TxContext{Origin: callerAddr, GasPrice: big.NewInt(1)}, sdb, interleaveCfg, vm.Config{})
+		e.CloseAspectCall()
+		a := common.BytesToAddress([]byte{0xc0, 7, 7})
+		sdb.CreateAccount(a)
+		sdb.SetCode(a, code)
+		ret, left, err := e.Call(context.Background(), vm.AccountRef(callerAddr), a, nil, 100000, new(big.Int))
+		return fmt.Sprintf("%x/%d/%v", ret, left, err)
+	}
+	rnd := common.Hash{0x11, 0x22}
+	subject := func() string { return run(&rnd, 7, 0xc0, 7, 30_000_000) }
+	first := subject()
+	unrelated := []func(){
+		func() { run(nil, 7, 0xc0, 7, 30_000_000) },  // same height, PREVRANDAO not set
+		func() { run(&rnd, 7, 0xc1, 7, 30_000_000) }, // other coinbase
+		func() { run(&rnd, 7, 0xc0, 9, 30_000_000) }, // other base fee
+		func() { run(&rnd, 7, 0xc0, 7, 10_000_000) }, // other gas limit
+		func() { run(nil, 8, 0xc0, 7, 30_000_000) },  // other height, PREVRANDAO not set
+		func() { run(&rnd, 8, 0xc0, 7, 30_000_000) }, // other height
+	}
+	// every sequence of one or two unrelated executions, then the subject again (a one-entry cache keyed by too little needs
+	// exactly two: one to evict the subject's entry, one to plant a wrong entry under the subject's key)
+	_ = r
+	for a := -1; a < len(unrelated); a++ {
+		for b := range unrelated {
+			if a >= 0 {
+				unrelated[a]()
+			}
+			unrelated[b]()
+			if again := subject(); again != first {
+				return fmt.Sprintf("differs_after_unrelated_executions_%d_%d:", a, b) + strings.ReplaceAll(first+"_VS_"+again, " ", "_")
+			}
+		}
+	}
+	return "same"
+}
+
 func driveConc(seed uint64, n int, size int, em *Emitter) {
 	r := NewRng(seed)
 	initHost()
@@ -46,23 +102,51 @@ func driveConc(seed uint64, n int, size int, em *Emitter) {
 		return nil, nil
 	}
 	const workers = 8
-	for b := 0; b < n; b++ {
-		em.Reset(fmt.Sprintf("conc-%d-%d", seed, b))
-		cases := make([]*diffCase, workers*3)
-		for i := range cases {
-			cases[i] = genDiffCase(r, size)
+	// all batches are generated up front, and every case that asks for no extra EIP is run once BEFORE any EVM with extra EIPs
+	// has been built in this process: these first results are what "the instance run alone" means for the rest of the run (a
+	// shared instruction table patched by some other instance's EIP activation would show up against them)
+	batches := make([][]*diffCase, n)
+	alone := make([][]runOut, n)
+	for b := range batches {
+		batches[b] = make([]*diffCase, workers*3)
+		alone[b] = make([]runOut, workers*3)
+		for i := range batches[b] {
+			batches[b][i] = genDiffCase(r, size)
 		}
-		// half of the batches build all their EVMs from one configuration value: the same ExtraEips slice (one EIP that does
-		// not exist first, so that the activated list is shorter than the configured one)
-		var shared, sharedOrig []int
+	}
+	sharedOf := map[int][]int{}
+	for b := range batches {
+		// half of the batches build all their EVMs from one configuration value (decided here, before the reference runs)
 		if b%2 == 0 {
 			all := []int{1344, 1884, 2200, 2929, 3198, 3855, 3860}
+			var shared []int
 			if b == 0 || r.Chance(70) {
 				shared = append(shared, 9999)
 			}
 			for k := 1 + r.Intn(3); k > 0; k-- {
 				shared = append(shared, all[r.Intn(len(all))])
 			}
+			sharedOf[b] = shared
+		}
+	}
+	for b := range batches {
+		if _, ok := sharedOf[b]; ok {
+			continue
+		}
+		for i, c := range batches[b] {
+			if len(c.extraEip) == 0 {
+				alone[b][i] = runFork(c, 2_000_000, true)
+			}
+		}
+	}
+	for b := 0; b < n; b++ {
+		em.Reset(fmt.Sprintf("conc-%d-%d", seed, b))
+		cases := batches[b]
+		// half of the batches build all their EVMs from one configuration value: the same ExtraEips slice (one EIP that does
+		// not exist first, so that the activated list is shorter than the configured one)
+		var shared, sharedOrig []int
+		if sh, ok := sharedOf[b]; ok {
+			shared = sh
 			sharedOrig = append([]int{}, shared...)
 			for _, c := range cases {
 				c.extraEip = shared
@@ -96,12 +180,21 @@ func driveConc(seed uint64, n int, size int, em *Emitter) {
 				break
 			}
 		}
+		for i := range cases {
+			if v == "same" && alone[b][i].summary != "" && (alone[b][i].summary != seq[i].summary || firstDiff(alone[b][i].trace, seq[i].trace) != "") {
+				v = "differs_from_the_run_alone_before_any_extra_EIP_was_enabled_in_this_process:" + strings.ReplaceAll(alone[b][i].summary, " ", "_") + "|" + strings.ReplaceAll(seq[i].summary, " ", "_")
+			}
+		}
 		if v == "same" && !reflect.DeepEqual(shared, sharedOrig) {
 			v = fmt.Sprintf("caller_configuration_modified:%v->%v", sharedOrig, shared)
 			v = strings.ReplaceAll(v, " ", ",")
 		}
 		em.Op("C17,C16", "S conc-same", v)
 		em.Count(fmt.Sprintf("conc:cases=%d", len(cases)))
+
+		// C16: an execution depends on its own context only — not on what other EVMs (same chain configuration value, same height
+		// and time, a block context that differs in one field) ran before it in this process
+		em.Op("C16,C17", "S det-interleaved", detInterleaved(r))
 
 		// cancellation of a looping execution from another goroutine
 		sdb := newStateDB()
